@@ -172,6 +172,14 @@ def rate_values(cfg, teams, call, ctx=None):
     return vals(rate(m, objs, call, ctx))
 
 
+def observed_or_rate(case, ctx=None):
+    """The result a single-call oracle judges: normally a fresh model + fresh ratings; a league history (vf/league.py) passes the
+    result it observed on its own long-lived objects under '_observed' so that the same oracle is applied to that step."""
+    if "_observed" in case:
+        return case["_observed"]
+    return rate_values(case["cfg"], case["teams"], case["call"], ctx)
+
+
 def eff_tau(cfg, call) -> float:
     t = call.get("tau")
     if t is None:
